@@ -8,7 +8,14 @@ import gen_errmap
 import vlib
 
 PID = "C12"
-KNOWN = {}  # no known findings: the defects found are repaired by fixes/C12-1.patch and fixes/C12-2.patch
+# F1 / F2 are repaired by fixes/C12-1.patch and fixes/C12-2.patch (merged). F3 (round 5, fixes/C12-3.patch proposed):
+# requests that hit it are counted as known-finding hits (gen_errmap.KNOWN_BODY_CUT), never silently accepted as
+# correct: see body_cut_outcome; with the fix applied there are no hits and the check passes as well.
+KNOWN = {gen_errmap.KNOWN_BODY_CUT: "proxy service, log level other than trace: the upstream sends the complete header "
+                                    "section of a chunked 2xx response and dies in the middle of the body; the "
+                                    "recovery middleware swallows ReverseProxy's http.ErrAbortHandler and net/http "
+                                    "completes the message: the client gets a well-formed, complete 2xx with a "
+                                    "truncated body (fixes/C12-3.patch)"}
 
 
 # ---------------------------------------------------------------------------------------------------------------
@@ -54,6 +61,12 @@ def fill_svc(case, impl):
     lc = copy.deepcopy(case)
     ok = isinstance(impl, list) and len(impl) == len(case["reqs"])
     for k, rq in enumerate(lc["reqs"]):
+        r5 = gen_errmap.ep_scenario(rq)
+        if r5 is not None:
+            # round 5: the error value is built by the MODEL from the scenario (which fault of the token endpoint,
+            # which strategy, how the upstream ends), never taken from what the implementation reported
+            rq["ctx"] = r5["ctx"] if r5["ctx"] is not None else {"exec": "none", "err": None}
+            continue
         special = gen_errmap.svc_scenario(rq["path"], (rq.get("hdr") or {}).get("X-Mode"))
         if special is not None:
             # the outcome of the CEL expressions / the configured redirect code is computed by the generator's
@@ -77,18 +90,66 @@ def fill_svc(case, impl):
     return lc
 
 
+def scenario_of(rq):
+    sc = gen_errmap.ep_scenario(rq)
+    if sc is None:
+        sc = gen_errmap.svc_scenario(rq["path"], (rq.get("hdr") or {}).get("X-Mode"))
+    if sc is None:
+        sc = gen_errmap.request_scenario(rq)
+    return sc
+
+
+DEFAULT_STATUS = {"authn": 401, "authz": 403, "comm": 502, "precond": 400, "noRule": 404, "internal": 500}
+
+
+def class_status(case, rq, cls):
+    cfg = case.get("pcfg", case["cfg"]) if rq["svc"] == "proxy" else case["cfg"]
+    return cfg["ov"].get(cls, 0) or DEFAULT_STATUS[cls]
+
+
+def body_cut_outcome(case, rq, resp):
+    """the upstream sent the complete header section of its response and died in the middle of the body: the status
+    line is gone by then. "ok": the client was told the failure's status (the proxy had not forwarded anything yet) or
+    can see that the transfer was cut short; "known": it got a COMPLETE response with the upstream's success status
+    (finding C12-3, see design/C12.md); else a description of what is wrong"""
+    if resp.get("out") in ("aborted", "panic", "noresp"):
+        # the transfer was cut short / the connection was closed before the buffered beginning of the response left
+        return "ok"
+    if resp.get("out") == "resp" and resp.get("status") == class_status(case, rq, "comm"):
+        return "ok"
+    if resp.get("out") == "ok":
+        # the defect fix C12-3 repaired (recorded under `fixed` in known_findings.json): a violation like any other
+        return ("a COMPLETE response with the upstream's success status although the upstream died in the middle of "
+                "the body: the client cannot see that the transfer was cut short")
+    return "neither the status of a communication failure nor an aborted transfer"
+
+
+def known_hits(case, impl):
+    """requests of the case which hit finding C12-3"""
+    n = 0
+    if isinstance(impl, list) and len(impl) == len(case["reqs"]):
+        for rq, a in zip(case["reqs"], impl):
+            sc = gen_errmap.ep_scenario(rq)
+            if sc is not None and sc["cls"] == "cut" and isinstance(a, dict):
+                n += body_cut_outcome(case, rq, a.get("resp") or {}) == "known"
+    return n
+
+
 def expected_class_ok(case, impl):
     """property-level expectation per scenario, independent of the model: the class the property names for the
     failure provoked on that path (status of that class under the configuration of the case)"""
     bad = []
-    defaults = {"authn": 401, "authz": 403, "comm": 502, "precond": 400, "noRule": 404, "internal": 500}
+    defaults = DEFAULT_STATUS
     if not isinstance(impl, list):
         return ["no answer list"]
     for rq, a in zip(case["reqs"], impl):
-        sc = gen_errmap.svc_scenario(rq["path"], (rq.get("hdr") or {}).get("X-Mode"))
-        if sc is None:
-            sc = gen_errmap.request_scenario(rq)
+        sc = scenario_of(rq)
         resp = a.get("resp", {}) if isinstance(a, dict) else {}
+        if sc is not None and sc["cls"] == "cut":
+            why = body_cut_outcome(case, rq, resp)
+            if why not in ("ok", "known"):
+                bad.append((rq, resp, why))
+            continue
         if sc is None or sc["cls"] is None:
             if resp.get("out") != "ok":
                 bad.append((rq, resp, "request without failure was not let through"))
@@ -225,21 +286,45 @@ def verdict(case, i, m):
         if not isinstance(i, list) or len(i) != len(case["reqs"]):
             return ("impl-crash", f"services gave no answers: {str(i)[:400]}")
         def who(rq, a):
+            name = f"{rq['svc']} {rq['path']}"
+            if rq.get("log"):
+                name += f" [log level {rq['log']}]"
+            if rq.get("tfault"):
+                name += f" [token endpoint: {rq['tfault']}]"
+            if isinstance(a, dict) and a.get("info"):
+                name += f" [informational responses forwarded first: {a['info']}]"
             if not rq.get("hc"):
-                return f"{rq['svc']} {rq['path']}"
-            return (f"{rq['svc']} {rq['path']} (client half-closed its connection and reads the answer; context of "
+                return name
+            return (f"{name} (client half-closed its connection and reads the answer; context of "
                     f"the request when the pipeline returned: {a.get('rctx') if isinstance(a, dict) else '?'})")
         for k, (rq, a) in enumerate(zip(case["reqs"], i)):
+            r5 = gen_errmap.ep_scenario(rq)
+            if r5 is not None and r5["cls"] == "cut":
+                continue  # judged by body_cut_outcome (expected_class_ok)
             if isinstance(spec, list) and k < len(spec) and spec[k] is not True:
                 return ("impl-vs-spec", f"{who(rq, a)} answers {json.dumps(a.get('resp'))}, rejected by the "
                                         f"specification; the proved model answers {json.dumps(res[k])}")
         for rq, resp, why in expected_class_ok(case, i):
             a = i[case["reqs"].index(rq)]
             return ("impl-vs-spec", f"{who(rq, a)}: {why}; answer {json.dumps(resp)}")
+        trees, infos = m.get("trees") or [], m.get("infos") or []
         for k, (rq, a) in enumerate(zip(case["reqs"], i)):
+            r5 = gen_errmap.ep_scenario(rq)
+            if r5 is not None and r5["cls"] == "cut":
+                continue  # the transfer of a body is net/http's business, not modelled
             if vlib.canon(norm(a.get("resp"))) != vlib.canon(norm(res[k])):
                 return ("impl-vs-model", f"{who(rq, a)} answers {json.dumps(a.get('resp'))}, the model "
                                          f"{json.dumps(res[k])}")
+            if r5 is not None and r5.get("tree") and k < len(trees):
+                # the error value the real executor returned vs the one the model builds for the fault
+                obs, want = gen_errmap.norm_tree(a.get("err")), gen_errmap.norm_tree(trees[k])
+                if vlib.canon(obs) != vlib.canon(want):
+                    return ("impl-vs-model", f"{who(rq, a)}: the pipeline ends with the error value "
+                                             f"{json.dumps(obs)}, the model builds {json.dumps(want)}")
+            if r5 is not None and "infos" in r5 and not rq.get("hc") and k < len(infos) and infos[k] is not None:
+                if a.get("info") != infos[k]:
+                    return ("impl-vs-model", f"{who(rq, a)}: the client got the informational responses "
+                                             f"{a.get('info')}, the model says {infos[k]}")
         return None
     if case["op"] == "cfgkeys":
         if vlib.canon(i) != vlib.canon(res):
@@ -333,7 +418,13 @@ def run(R):
     # ---- stream 2: the assembled services
     n_stacks = 4 if quick else 150
     scases = s_corpus + [gen_errmap.gen_svc_case(R.rng, R.tmp, plain=(k == 0)) for k in range(n_stacks)]
+    # round 5: stacks in which the upstream / the token endpoint hangs until a (short) timeout
+    scases += [gen_errmap.gen_timeout_case(R.rng, R.tmp) for _ in range(1 if quick else 6)]
     simpl, smodel, _ = run_pair(exe, scases)
+    for c, i in zip(scases, simpl):
+        n = known_hits(c, i)
+        if n:
+            R.known_hits[gen_errmap.KNOWN_BODY_CUT] = R.known_hits.get(gen_errmap.KNOWN_BODY_CUT, 0) + n
 
     # ---- stream 3: configuration keys
     ccases = [c for c in corpus if c["op"] == "cfgkeys"]
@@ -371,9 +462,38 @@ def run(R):
     redirect_codes = collections.Counter()
     halfclose = collections.Counter()
     halfclose_ms = [0]
+    log_levels = collections.Counter()
+    upstream = collections.Counter()
+    token_faults = collections.Counter()
+    strategies = collections.Counter()
+    slowest_ms = [0]
     for c, i in zip(scases, simpl):
         if isinstance(i, list):
             for rq, a in zip(c["reqs"], i):
+                status = (a.get("resp") or {}).get("status")
+                outk = (a.get("resp") or {}).get("out")
+                log_levels[f"{rq['svc']} at {rq.get('log') or 'no-op logger'}"] += 1
+                slowest_ms.append(a.get("ms") or 0)
+                r5 = gen_errmap.ep_scenario(rq)
+                if r5 is not None and "infos" in r5:
+                    end = "refused" if rq["path"] == "/refused" else rq["path"].rsplit(".", 1)[-1].rsplit("/", 1)[-1]
+                    upstream[f"log {rq.get('log') or 'no-op'}: {len(r5['infos'])} informational then {end}"
+                             f"{' (client half-closes)' if rq.get('hc') else ''} -> "
+                             f"{outk if outk != 'resp' else 'failure answered'}"] += 1
+                elif r5 is not None and rq["path"].startswith(("/ep/", "/epx/")):
+                    fault = "refused" if rq["path"].startswith("/epx/") else rq.get("tfault")
+                    token_faults[f"{rq['path'].rsplit('/', 1)[1]}: token endpoint {fault}"
+                                 f"{' (client half-closes)' if rq.get('hc') else ''} -> "
+                                 f"{outk if outk != 'resp' else r5['cls']}"] += 1
+                elif r5 is not None and rq["path"].startswith("/eps/"):
+                    strategies[f"{rq['path']} -> {outk if outk != 'resp' else r5['cls']}"] += 1
+                elif r5 is not None and rq.get("werr"):
+                    token_faults[f"Endpoint.SendRequest, context expires after {rq['werr'].get('deadline')} ms, token "
+                                 f"endpoint hangs ({rq['svc']}) -> {outk if outk != 'resp' else r5['cls']}"] += 1
+                if r5 is not None and rq["path"].startswith(("/up/", "/upwww/")):
+                    svc_counts[rq["svc"] + " /up/*"] += 1
+                    svc_status[str(status)] += 1
+                    continue
                 if rq.get("hc"):
                     halfclose_ms.append(a.get("ms") or 0)
                     kind = ("scripted wait" if rq.get("werr") else "real mechanism waiting"
@@ -413,7 +533,17 @@ def run(R):
                 "authorizer, generic authenticator, the proxy's forwarding) or a scripted step (real "
                 "endpoint.SendRequest / wait for ctx.AppContext()) waits on a server that never answers and then fails "
                 "with a communication / timeout / authentication / authorization / ... error caused by "
-                "context.Canceled / DeadlineExceeded; handler stream additionally: every case through the real "
+                "context.Canceled / DeadlineExceeded; round 5: every request at a log level of its service (trace ... "
+                "disabled, no-op logger; one service per level built by the services' own constructors), the proxy "
+                "forwarding to a scripted raw-TCP upstream which sends 0-3 informational responses (100 / 102 / 103 with "
+                "Link headers) and then answers, closes, resets, sends a partial status line / header section / body, "
+                "refuses the connection or hangs until serve.proxy.timeout.read, at every log level; the endpoints of "
+                "real remote authorizers, generic authenticators, generic contextualizers and OAuth2 introspection "
+                "authenticators authenticating with oauth2_client_credentials against a scripted token endpoint (ok, "
+                "503, 401, 200 garbage, 200 error document, 400 invalid_client, 400 garbage, closes, refuses, hangs "
+                "while the client half-closes / until the deadline of the context), basic_auth, api_key, "
+                "http_message_signatures (signable / not signable), the error value returned by the real executor "
+                "compared with the one the model builds for the fault; handler stream additionally: every case through the real "
                 "service.NewHandler(...).ServeHTTP (decision / proxy request contexts) and Handler.Check behind the "
                 "interceptor, with the context of the request live, cancelled or past its deadline, and "
                 "context.Canceled / DeadlineExceeded as leaves; mechanism stream: redirect error handlers "
@@ -426,6 +556,12 @@ def run(R):
         "handler_cases_through_service_handlers": sum(1 for c in hcases if not c.get("translators_only")),
         "service_halfclose_requests": dict(sorted(halfclose.items())),
         "service_halfclose_slowest_ms": max(halfclose_ms),
+        "service_requests_by_log_level": dict(sorted(log_levels.items())),
+        "proxy_upstream_scenarios": dict(sorted(upstream.items())),
+        "endpoint_token_endpoint_faults": dict(sorted(token_faults.items())),
+        "endpoint_other_strategies": dict(sorted(strategies.items())),
+        "service_slowest_request_ms": max(slowest_ms),
+        "known_finding_hits": dict(R.known_hits),
         "service_stacks": len(scases), "service_requests": n_svc_req,
         "service_requests_by_path": dict(sorted(svc_counts.items())),
         "service_statuses": dict(sorted(svc_status.items())),
@@ -454,6 +590,17 @@ def run(R):
         "runtime for a request is computed by the generator's oracle (cel_map / cel_idx / cel_div), the model starts "
         "from that outcome",
         "Accept headers reach the model in parsed form; the rendering of the generator is trusted",
+        "round 5: net/http's response writer is modelled by its status logic only (informational statuses are sent and "
+        "do not count as the final one, later WriteHeader calls are ignored, no final status = 200); the dump "
+        "middleware by its WriteHeader hook; httputil.ReverseProxy by 'each informational response of the upstream is "
+        "handed to WriteHeader, a RoundTrip error to the ErrorHandler' — all validated by the services stream with a "
+        "scripted raw-TCP upstream only; the transfer of response BODIES is not modelled (an upstream dying in the "
+        "middle of the body is judged by the generator's oracle: failure status or visibly aborted transfer)",
+        "round 5: the outcomes of a token request (TokenOutcome) are an enumeration of what clientcredentials."
+        "fetchToken distinguishes, found by reading it and validated against a scripted token endpoint; token caching "
+        "is switched off (cache_ttl: 0s) so that every request fetches a token; which class a fault of the token "
+        "endpoint OUGHT to have is the generator's table (TOKEN_FAULTS: communication whenever heimdall could not "
+        "talk to the token endpoint or was refused a token, internal for a 200 which is no token document)",
         "the context of the request is modelled by its state at the moment the failure reaches the handler (live / "
         "cancelled / deadline exceeded); WHEN net/http cancels it (read EOF incl. a half-closed connection, client "
         "gone, HTTP/2 stream reset) is net/http's business and exercised by the services stream with a real "
@@ -461,6 +608,12 @@ def run(R):
         "itself), the Envoy service is covered in-process (Handler.Check behind the interceptor with a cancelled / "
         "expired context)",
     ]
+
+    # ---- known finding (proposed entry for known_findings.json in design/C12.md; vlib prints it once it is listed)
+    listed = {f["id"] for f in vlib.known_findings().get("findings", []) if isinstance(f, dict) and "id" in f}
+    for fid, n in R.known_hits.items():
+        if n and fid not in listed:
+            print(f"KNOWN-FINDING: property={PID} {KNOWN.get(fid, fid)} (seen {n}x this run)")
 
     # ---- verdicts
     reported = 0
@@ -504,6 +657,9 @@ def replay(R, path):
     if isinstance(model[0], dict) and "spec" in model[0]:
         print("spec :", json.dumps(model[0]["spec"]))
     R.coverage.update({"obligations": 1, "discharged": 1, "checker_cmd": "replay", "trusted_base": []})
+    if c.get("op") == "svc" and known_hits(c, impl[0]):
+        print(f"KNOWN-FINDING: property={PID} {KNOWN[gen_errmap.KNOWN_BODY_CUT]} (seen {known_hits(c, impl[0])}x in "
+              f"this replay)")
     v = verdict(c, impl[0], model[0])
     if v is not None:
         R.violation("replay still fails: " + v[1], {"case": c, "impl": expand_sides(impl[0]),
